@@ -10,7 +10,7 @@ use rayon::prelude::*;
 use serde_json::{json, Value};
 use std::sync::Arc;
 
-fn explore_r(cfgs: Vec<(String, RCfg, usize, f64, u64)>, t: &mut Totals) {
+pub fn explore_r(cfgs: Vec<(String, RCfg, usize, f64, u64)>, t: &mut Totals) {
     // worlds are small: run them in parallel, each with a sequential-ish BFS
     let results: Vec<(String, BfsStats, Arc<RCfg>)> = cfgs
         .into_par_iter()
